@@ -65,6 +65,13 @@ CHECKS.update({
         note=FAN_NOTE, technique="TLA+ model checking (TLC) + forcing TLC-generated schedules on the real Dataset via gates + TLC trace validation", ref="5/C17"),
 })
 
+CHECKS.update({
+    "C11": dict(
+        text="ProposeWait.tla models the register / propose / gap / select protocol of proposeAndWaitForCommit against the non-blocking notify of the apply loop, with the switch NotifCap (TLC: Truthful and Delivered hold for capacity 1, counterexample for the shipped capacity 0). On the real code a gate after raft.Propose forces both orders (caller first, apply loop first) for every outcome class on a real single-replica raft group, concurrent gated callers on equal and distinct ids, scripted remote owners (ok / failing / no address), dimension mismatches, and batches mixing partitions and item kinds; ProposeWaitTrace requires the sequential-set outcome for every local call, an error whenever the owner was not reached, and exactly the failed ids in batch answers.",
+        note="One real single-replica raft group on in-memory Badger; remote owners are scripted gRPC servers; multi-replica log behaviour is C05.",
+        technique="TLA+ model checking (TLC) + gate-forced caller/apply-loop orders on the real write path + TLC trace validation", ref="5/C11"),
+})
+
 NOT_APPLICABLE = {
     "C15": "Numeric agreement and memory safety of hand-written AVX/SSE kernels: no state machine to specify, TLC has neither IEEE-754 floats nor a memory model; a differential/sanitizer technique would be needed (DESIGN.md section 6).",
 }
